@@ -106,6 +106,10 @@ func c16Peer(b *xport.Conn, proxy, useTLS bool, stopAt int, negative string) {
 			case "proxy-refuses-body":
 				b.Write([]byte("HTTP/1.1 502 Bad Gateway\r\nContent-Length: 5\r\n\r\nsorry"))
 				return
+			case "proxy-refuses-body-withheld":
+				// the head announces a body that never comes; the connection stays open
+				b.Write([]byte("HTTP/1.1 407 Proxy Authentication Required\r\nContent-Length: 64\r\n\r\nsorry"))
+				return
 			case "proxy-malformed":
 				b.Write([]byte("garbage\r\n\r\n"))
 				return
@@ -208,6 +212,13 @@ func c16DialC(cfg c16Cfg, faultAt int, fk xport.FaultKind, stopAt int, negative 
 	}
 	if cfg.TLS {
 		d.TLSClientConfig = &tls.Config{RootCAs: getPKI().pool}
+		if negative == "verify-callback-wraps-context-error" {
+			// the application's own verification step fails with an error that wraps a context
+			// error (say, its revocation lookup timed out); the dial's context is still alive
+			d.TLSClientConfig.VerifyConnection = func(tls.ConnectionState) error {
+				return fmt.Errorf("revocation check: %w", context.DeadlineExceeded)
+			}
+		}
 	}
 	long := time.Hour
 	if shortTO {
@@ -473,8 +484,8 @@ func runC16(ctx *core.Ctx, out *core.Out) {
 		}
 		return
 	}
-	for _, neg := range []string{"proxy-refuses", "proxy-refuses-no-reason", "proxy-refuses-body", "proxy-malformed", "untrusted-cert", "wrong-host-cert", "server-404", "wrong-accept", "server-malformed", "bad-extension-parameters"} {
-		if (strings.HasPrefix(neg, "proxy-") && !cfg.Proxy) || (strings.HasSuffix(neg, "-cert") && !cfg.TLS) {
+	for _, neg := range []string{"proxy-refuses", "proxy-refuses-no-reason", "proxy-refuses-body", "proxy-refuses-body-withheld", "proxy-malformed", "untrusted-cert", "wrong-host-cert", "verify-callback-wraps-context-error", "server-404", "wrong-accept", "server-malformed", "bad-extension-parameters"} {
+		if (strings.HasPrefix(neg, "proxy-") && !cfg.Proxy) || ((strings.HasSuffix(neg, "-cert") || strings.HasPrefix(neg, "verify-")) && (!cfg.TLS || cfg.Hook == 2)) {
 			continue
 		}
 		run := c16Dial(cfg, -1, 0, 0, neg, false)
